@@ -20,6 +20,7 @@ RULE = ('E1 (Hypothesis): left GeoDataFrame with a point column (duplicates, mis
         'of complete rows (index label + canonical value of every column, NaN-aware), column-name set, index name, result type. '
         'Non-trivial: some point matches >= 2 shapes, or some row is unmatched on the kept side, or the left index is non-unique. '
         'distinct = distinct cases.')
+RULE += (' Added after the seeded rounds: either frame may be a row slice of a longer frame (missing rows in front); strided RangeIndex index kinds.')
 ASSUMPTIONS = ['row order and column order are not asserted', 'dtype of columns that acquire NaN is not asserted (values compared numerically)']
 BUDGET = {'quick': {'shards': 16, 'examples': 1600, 'min_evaluations': 800},
           'thorough': {'shards': 16, 'examples': 12000, 'min_evaluations': 6000}}
